@@ -166,6 +166,14 @@ func (r *generateReader) ReadByte() (byte, error) {
 			return '\\', nil
 		}
 
+		if si+1 < len(r.s) && r.s[si+1] != '$' {
+			// Only \$ means something here (a literal $). Any other escape
+			// is for the parser of the generated line: hand it on unchanged.
+			r.si++
+			r.mod.WriteByte(r.s[si+1])
+			return '\\', nil
+		}
+
 		r.escape = true
 		return r.ReadByte()
 	case '$':
